@@ -172,6 +172,13 @@ UNIT_CASES = [
     (('and', ('eventually_t', X, 0, 2), ('once_t', Y, 0, 1)), '(eventually[0,2](x)) and (once[0ms,1000ms](y))', None, None),
     (('and', ('eventually_t', X, 0, 2), ('once_t', Y, 0, 1)), '(eventually[0s,2s](x)) and (once[0,1](y))', None, None),
     (('and', ('eventually_t', X, 0, 1), ('historically_t', Y, 0, 1)), '(eventually[0,1000ms](x)) and (historically[0,1000ms](y))', None, None),
+    # period finer than the default unit: bounds are fractions of the default unit
+    (('always_t', X, 0, 3), 'always[0,1500ms](x)', (500, 'ms'), 's'),
+    (('until_t', X, Y, 1, 3), '(x) until[0.5,1.5] (y)', (500, 'ms'), 's'),
+    (('implies', ('geq', X, ('const', 0.0)), ('eventually_t', ('geq', Y, ('const', 0.0)), 1, 5)),
+     '((x) >= (0.0)) implies (eventually[500ms,2500ms]((y) >= (0.0)))', (500, 'ms'), 's'),
+    (('and', ('eventually_t', X, 1, 3), ('once_t', Y, 0, 1)), '(eventually[0.5,1.5](x)) and (once[0,500ms](y))', (500, 'ms'), None),
+    (('eventually_t', ('always_t', X, 0, 1), 1, 2), 'eventually[250ms,500ms](always[0,0.25](x))', (250, 'ms'), 's'),
 ]
 NOFUT_CASES = [
     (('once_t', X, 0, 2), 'once[0ms,2000ms](x)', None, None),
@@ -182,6 +189,9 @@ NOFUT_CASES = [
     (('once_t', X, 1, 2), 'once[1,2](x)', None, None),
     (('and', ('once_t', X, 0, 1), ('historically_t', Y, 1, 2)), '(once[0,1s](x)) and (historically[1000ms,2000ms](y))', None, None),
     (('since', ('once_t', X, 0, 1), Y), '(once[0us,1000000us](x)) since (y)', None, None),
+    (('since_t', X, Y, 1, 3), '(x) since[500ms,1500ms] (y)', (500, 'ms'), 's'),
+    (('and', ('once_t', X, 1, 5), ('historically_t', Y, 0, 3)), '(once[0.5,2.5](x)) and (historically[0,1500ms](y))', (500, 'ms'), 's'),
+    (('once_t', X, 1, 2), 'once[0.25,0.5](x)', (250, 'ms'), None),
 ]
 
 
@@ -222,4 +232,7 @@ def obligations(tier, rng):
         h = hor(f)
         out.append(ob('C03', 'delay', 'ltl/%s/N=%d' % (text(f), h + 3), f=f, N=h + 3, kind='ltl'))
     seen = set()
-    return [o for o in out if not (o['oid'] in seen or seen.add(o['oid']))]
+    res_ = [o for o in out if not (o['oid'] in seen or seen.add(o['oid']))]
+    from .. import core as _core
+    res_ = res_ + _core.make_twins(res_, [('Ffut/eventually[0,2](x)/N=5', 'window'), ('Ffut/(next(x)) and (y)/N=4', 'minmax'), ('nofuture/once[1s,2000ms](x)', 'window')]) + _core.make_forkmode(res_, ['Ffut/(x) until[1,2] (y)/N=5'])
+    return res_
